@@ -407,8 +407,8 @@ end coll
 section hist
 variable {σ : Type} (S : MarkSet σ) (c : Cfg)
 
-/-- the hypothesis under which the bits are clear whenever a mark phase begins: the repair is in place, or no exception has
-    left (or will leave) a mark phase -/
+/-- the hypothesis under which the bits are clear whenever the three phases of a mark phase begin: `GC_Mark` clears them first
+    (`GC_Unmark`, fix d8f0c4f: the source as it is), or no exception has left (or will leave) a mark phase -/
 def CleanStart (cf : Bool) (s : GState) (ops : List GOp) : Prop :=
   cf = true ∨ (s.stale = [] ∧ ∀ op ∈ ops, op.completes = true)
 
